@@ -13,6 +13,12 @@ CHECKS = {
  'C05': ('model_checking', 'A', 'explicit-state exploration with first-answer oracle (bitwise) on every repeated query',
          "Every query of every explored history is re-issued in every extension, in order, reversed and through ReverseBrownian; all answers must be torch.equal to the first answer. Histories: full product to depth 2 over 190 configurations (cache 0/1/2/45/None, dt hint or inferred, all Levy modes, shapes), depth 3 on core configurations, solver-shaped forward/backward sweeps across the warm-up with <=2 deviations.",
          "bitwise comparison within one process/thread; grids and schedules as stated"),
+ 'C06': ('model_checking', 'A', 'explicit-state exploration with twin-object and fresh-object-dictionary oracles (bitwise)',
+         "Every explored history is replayed on a second fresh object with equal entropy (bit-identical answers); in dyadic mode (halfway_tree=True, BrownianTree) every answer in every reached state equals the answer a fresh object gives for that interval, over the full product of histories to depth 2-3 (different query sets, not permutations) incl. sub-tolerance queries; distinct entropies give distinct paths.",
+         "two entropies compared per run (derived from VERIF_SEED); bitwise comparison in one process"),
+ 'C07': ('model_checking', 'A', 'explicit-state exploration with work/stack/cache meters on every public call; step-count ladder through sdeint',
+         "Every public call over the full constructor product (sizes x Levy modes x cache 0/1/2/45/None x dt hints x tol x halfway x supplied W/H), micro histories incl. 1-ulp and sub-tolerance queries, sweeps across the warm-up with <=2 deviations, and sdeint ladders up to 25000 (thorough 60000) steps returns normally within a node-creation budget, with frame depth at node creation inside a logarithmic allowance and cache entries <= cache_size.",
+         "non-termination is decided by a deterministic work budget; the frame-depth allowance (200 + 8 log2(T/res)) is a judgement well above the dyadic recursion the design needs and well below the recursion limit"),
 }
 def main():
     checks = []
